@@ -363,6 +363,7 @@ POOL = {
 }
 COLL = ["g", "m", "l", "c", "kg", "ml", "mm", "kilogram", "h", "", "  ", " ", "x", "gram", "min", "s", "dl", "cup", "é", "名", "a\"b\\c"]
 RATIOS = [1.0, 2.0, 0.5, 0.1, 0.001, 1000.0, 3.0, 28.349523125, 0.25, 1e-3, 12.5, 100.0, 0.01]
+SPACED = ["g ", " g", "gram ", " l", "l ", "m ", " gr.", "oz ", " oz", "kilogram ", " min", "s ", "\tg", "cup "]
 FRESH = ["gramo", "litro", "taza", "metro", "hora", "libra", "onza", "pie", "segundo", "kilos", "cl.", "tbsp", "fl oz", "º"]
 
 
@@ -438,6 +439,9 @@ def mutate_unit(rng, u):
         symbols.append(symbols[0] if symbols else "q")    # the same key twice in one unit
     elif rng.random() < 0.12:
         aliases.append(rng.choice(FRESH) + rng.choice(["", "", "s", "2"]))
+    if rng.random() < 0.05:
+        # a key with blanks around it is a key of its own (it is stored and looked up verbatim)
+        aliases.append(rng.choice(SPACED))
     if flt(rng, 0.02):
         ex = not ex
     if rng.random() < 0.12:
@@ -488,8 +492,8 @@ def gen_group(rng, q, known, allow_faults=True, pool_skip=0):
         if allow_faults:
             r = rng.random() / rng.fault if getattr(rng, "fault", 1.0) else 1.0
             other = [x for qq in known if qq in PQS for x in known[qq] if qq != q and x.strip()]
-            if r < 0.01:
-                best = ("u", []) if best[0] == "u" else ("s", best[1], [])
+            if r < 0.012:
+                best = ("u", []) if best[0] == "u" else ("s", best[1], []) if rng.random() < 0.5 else ("s", [], best[2])
             elif r < 0.02:
                 best[1].insert(rng.randrange(len(best[1]) + 1), "zz")
             elif r < 0.04 and other:
@@ -548,9 +552,59 @@ def gen_layered_case(rng):
     return files
 
 
+def gen_fraction_layers_case(rng):
+    """Two or three [fractions] layers: per-unit entries that leave fields open in an early layer, and a later
+    layer that sets or changes all / metric / imperial / a quantity (or the other way round)."""
+    rng.fault = 0.0
+    f0 = {"ds": rng.choice([None, "m", "i"]), "si": {"p": FULL_P, "s": FULL_S, "prec": "b", "explicit_prec": False},
+          "fr": None, "ex": None, "q": []}
+    keys = []
+    for qq in PQS:
+        pool = POOL[qq][:rng.choice([2, 3])]
+        ents = [(list(u[0]), list(u[1]), [], u[2], u[3], u[4]) for u in pool]
+        bysys = rng.random() < 0.7
+        units = ("s", [e for e, u in zip(ents, pool) if u[5] == "m"], [e for e, u in zip(ents, pool) if u[5] == "i"],
+                 [e for e, u in zip(ents, pool) if u[5] is None]) if bysys else ("u", ents)
+        f0["q"].append({"q": qq, "best": ("u", [pool[0][1][0]]), "units": units})
+        keys += [rng.choice(u[0] + u[1]) for u in pool]
+    partial = lambda: ("c", rng.choice([None, None, True, False]), rng.choice([None, None, 0.1, 0.5]),
+                       rng.choice([None, 3, 8, 16]), rng.choice([None, None, 5]))
+
+    def units_layer():
+        fr = {"all": None, "metric": None, "imperial": None, "q": {}, "u": {}}
+        for k in rng.sample(keys, rng.choice([1, 2, 3])):
+            fr["u"][k] = partial() if rng.random() < 0.8 else gen_fw(rng)
+        for k in ("all", "metric", "imperial"):
+            if rng.random() < 0.3:
+                fr[k] = gen_fw(rng)
+        return fr
+
+    def broad_layer():
+        fr = {"all": None, "metric": None, "imperial": None, "q": {}, "u": {}}
+        for k in ("all", "metric", "imperial"):
+            if rng.random() < 0.6:
+                fr[k] = gen_fw(rng)
+        for q in PQS:
+            if rng.random() < 0.3:
+                fr["q"][q] = gen_fw(rng)
+        if not any(fr[k] for k in ("all", "metric", "imperial")) and not fr["q"]:
+            fr["imperial"] = ("t", rng.random() < 0.5)
+        return fr
+    layer = lambda fr: {"ds": None, "si": None, "fr": fr, "ex": None, "q": []}
+    order = [units_layer, broad_layer] if rng.random() < 0.7 else [broad_layer, units_layer]
+    f0["fr"] = order[0]()
+    files = [f0, layer(order[1]())]
+    if rng.random() < 0.3:
+        files.append(layer(rng.choice([units_layer, broad_layer])()))
+    return files
+
+
 def gen_case(rng):
-    if rng.random() < 0.1:
+    r0 = rng.random()
+    if r0 < 0.1:
         return gen_layered_case(rng)
+    if r0 < 0.16:
+        return gen_fraction_layers_case(rng)
     known = {}
     files = []
     rng.fault = rng.choice([0.0, 0.0, 0.3, 1.0, 1.0])
